@@ -48,7 +48,7 @@ def main():
         ok = r.get("demo_clean_exit") == 0 and r.get("demo_patched_exit") == 1 and "209 passed" in r.get("suite", "")
         r["ok"] = ok
         print(os.path.basename(r["dir"]), "OK" if ok else "NOT CONFIRMED", r)
-    json.dump(res, open("/tmp/r2/confirm.json", "w"), indent=1)
+    json.dump(res, open("/tmp/confirm_last.json", "w"), indent=1)
 
 
 if __name__ == "__main__":
